@@ -52,14 +52,14 @@ impl Prop for C17 {
         vec!["seeds are seeded streams plus constant extremes; the randomizer hash is recomputed with an independently written hash-to-scalar".into()]
     }
     fn bound(&self, tier: Tier) -> String {
-        format!("n<={}, every signer subset, {} randomizer sources", tier.pick(4, 6), tier.pick(7, 9))
+        format!("n<={}, every signer subset, {} randomizer sources", tier.pick(5, 7), tier.pick(7, 9))
     }
     fn required_counters(&self) -> Vec<&'static str> {
         vec!["sessions_verified_under_randomized_key", "rejected_under_original_key", "seed_byte_changes", "commitment_changes", "tampered_participant_blamed", "culprits_checked"]
     }
     fn cases(&self, tier: Tier, seed: u64) -> Vec<Value> {
         let mut out = vec![];
-        let nmax = tier.pick(4u16, 6u16);
+        let nmax = tier.pick(5u16, 7u16);
         let mut rs = vec![RSrc::Seeded("a".into()), RSrc::Seeded("b".into()), RSrc::ConstSeed(0), RSrc::ConstSeed(0xff), RSrc::Explicit("0".into()), RSrc::Explicit("1".into()), RSrc::Explicit("q-1".into())];
         if tier == Tier::Thorough {
             rs.push(RSrc::Seeded("c".into()));
